@@ -625,7 +625,8 @@ func (c *connection) SendResponseError(from gen.PID, to gen.PID, options gen.Mes
 }
 
 func (c *connection) SendTerminatePID(target gen.PID, reason error) error {
-	if target.Creation != c.peer_creation {
+	// target belongs to this node (the peer rebuilds it with its peer_creation)
+	if target.Creation != c.core.Creation() {
 		return gen.ErrProcessIncarnation
 	}
 	buf := lib.TakeBuffer()
@@ -698,7 +699,8 @@ func (c *connection) SendTerminateProcessID(target gen.ProcessID, reason error) 
 }
 
 func (c *connection) SendTerminateAlias(target gen.Alias, reason error) error {
-	if target.Creation != c.peer_creation {
+	// target belongs to this node (the peer rebuilds it with its peer_creation)
+	if target.Creation != c.core.Creation() {
 		return gen.ErrProcessIncarnation
 	}
 	buf := lib.TakeBuffer()
